@@ -1451,6 +1451,15 @@ def hline_cmd(strict, h):
 
 
 # ---- SSH identification string ----
+def swver_cmd(vendor, sep, h):
+    """the version the vendor's software version class splits off ('-' when there is none)"""
+    from cryptoparser.ssh import version as sv
+    cls = {'OpenSSH': sv.SshSoftwareVersionOpenSSH, 'dropbear': sv.SshSoftwareVersionDropbear, 'IPSSH': sv.SshSoftwareVersionIPSSH}[bytes.fromhex(vendor).decode('ascii')]
+    assert cls._get_version_separator() == bytes.fromhex(sep).decode('ascii')  # pylint: disable=protected-access
+    o = cls.parse_exact_size(bytes.fromhex('' if h == '-' else h))
+    return '-' if o.version is None else o.version.encode('ascii').hex()
+
+
 def banner_enc(proto, sw, c):
     from cryptoparser.ssh.subprotocol import SshProtocolMessage
     from cryptoparser.ssh.version import SshProtocolVersion, SshSoftwareVersionUnparsed
@@ -1476,7 +1485,7 @@ def banner_line(h):
 
 
 COMMANDS = {
-    'bannerenc': banner_enc, 'bannerdec': banner_dec, 'bannerline': banner_line,
+    'swver': swver_cmd, 'bannerenc': banner_enc, 'bannerdec': banner_dec, 'bannerline': banner_line,
     'nvl': nvl_cmd, 'fvm': fvm_cmd, 'hline': hline_cmd, 'pssl2': pssl2_cmd, 'cssl2': cssl2_cmd, 'pssh': pssh_cmd, 'cssh': cssh_cmd, 'sts': sts_cmd,
     'tpktenc': tpkt_enc, 'cotpenc': cotp_enc, 'pcotp': p_cotp, 'rdpnegenc': rdp_neg_enc, 'rdpnegdec': rdp_neg_dec, 'mysqlpktenc': mysql_pkt_enc,
     'mysqlssl41': mysql_ssl41, 'mysqlhs': mysql_hs, 'mysqlssl320': mysql_ssl320, 'ovpnctl': ovpn_ctl, 'ovpntcp': ovpn_tcp, 'ovpnack': ovpn_ack, 'ovpnhrc': ovpn_hrc, 'ovpnhrs': ovpn_hrs, 'ovpndec': ovpn_dec, 'pgssl': pg_ssl,
